@@ -74,9 +74,10 @@ impl<P> RpIdVerifier<P> {
     pub closed spec fn v_localhost(&self) -> bool { self.allows_insecure_localhost }
     pub closed spec fn v_provider(&self) -> &P { &*self.tld_provider }
 }
-// the acceptance condition of C01 for an effective RP ID `d`
-pub open spec fn accepted_rp_id<P: public_suffix::EffectiveTLDProvider>(v: &RpIdVerifier<P>, d: Seq<u8>, https: bool, need_https: bool) -> bool {
-    (d =~= sb("localhost") && v.v_localhost()) || (!(d =~= sb("localhost")) && registrable(v.v_provider(), d) && (need_https ==> https))
+// the acceptance condition of C01 for origin host `host` and effective RP ID `d`, as the statement gives it: HTTPS and a
+// registrable RP ID, "the only exception is the literal host "localhost" when insecure localhost was explicitly enabled"
+pub open spec fn accepted_rp_id<P: public_suffix::EffectiveTLDProvider>(v: &RpIdVerifier<P>, host: Seq<u8>, d: Seq<u8>, https: bool) -> bool {
+    (host =~= sb("localhost") && d =~= host && v.v_localhost()) || (registrable(v.v_provider(), d) && https)
 }
 //@ extract cl impl RpIdVerifier
 //@   only assert_domain assert_web_rp_id assert_valid_rp_id is_valid_rp_id assert_android_rp_id
